@@ -74,7 +74,9 @@ class Ref:
                 return "L%d" % (len(self.held) - 1)
             if e["owner"] == "client" and not is_req and e["surfacing"]:
                 status = int(line_m)
-                if (e["kind"] == "INVITE" and status >= 300) or (e["kind"] != "INVITE" and status >= 200):
+                if e["kind"] == "INVITE" and 200 <= status < 300:
+                    e["accepted"] = True     # Accepted state: every later response is handed over
+                if (e["kind"] == "INVITE" and status >= 300 and not e.get("accepted")) or (e["kind"] != "INVITE" and status >= 200):
                     e["surfacing"] = False
                 return "c%s" % e["id"]
             return "-"
@@ -107,8 +109,11 @@ class Ref:
                 h["moved"] = False
                 h["key"] = None
         elif what[0] == "c":
-            k = self.clients.pop(what[1:], None)
-            if k:
+            k = self.clients.get(what[1:])
+            # after its final response the registration belongs to the absorber task (T4 / 32 s),
+            # dropping the transaction object no longer ends it
+            if k and self.table.get(k, {}).get("surfacing"):
+                self.clients.pop(what[1:])
                 self.table.pop(k, None)
 
 
